@@ -196,8 +196,16 @@ def run_check(world, tier, seed, runs, wall_cap, workers=None, block=None, shrin
     seams.install()
     fprogs = world.finding_programs(known) if hasattr(world, "finding_programs") else []
 
+    # determinism self-test on a small sample (same process, twice): digests must be equal before anything is believed
+    det_n = min(12, runs)
+    det_a = [execute(world, make_program(world, master, i), known).digest for i in range(det_n)]
+    det_b = [execute(world, make_program(world, master, i), known).digest for i in range(det_n)]
+    det_ok = det_a == det_b
+    if not det_ok:
+        error = {"index": [i for i, (x, y) in enumerate(zip(det_a, det_b)) if x != y][0], "trace": "determinism self-test failed: the same run gave two different event-log digests", "program": None}
+
     ctx = multiprocessing.get_context("fork")
-    next_lo = 0
+    next_lo = 0 if det_ok else runs
     pending = set()
     try:
         with ProcessPoolExecutor(max_workers=workers, mp_context=ctx, initializer=_worker_init, initargs=(world_id, master, scratch, block_timeout)) as pool:
